@@ -25,9 +25,9 @@ func init() {
 
 func runC09(c *Ctx) {
 	p := c.Prog
-	c.Rule("R9.1", "indices into steps/batches derived from cursors are bounded (locally, or by a checked protocol rule)", 12)
+	c.Rule("R9.1", "indices into steps/batches derived from cursors are bounded (locally, or by a checked protocol rule)", 8)
 	c.Rule("R9.1p", "protocol rules that discharge controller-owned cursors", 6)
-	c.Rule("R9.2", "validator/controller contract (both validators)", 16)
+	c.Rule("R9.2", "validator/controller contract (both validators)", 12)
 	c.Rule("R9.3", "explicit panics are unreachable: factory types covered by the parse helpers", 8)
 
 	// ---- R9.1
